@@ -377,14 +377,6 @@ func fragList(frs []text.TextFragment) []map[string]interface{} {
 	return l
 }
 
-func mustJSON(v interface{}) []byte {
-	b, err := json.Marshal(v)
-	if err != nil {
-		panic(err)
-	}
-	return b
-}
-
 // ---------------------------------------------------------------- record
 
 // c08Record: the input is a list of {"n": programs, "len": length} requests; each
